@@ -9,7 +9,7 @@ BUDGET = {
     "quick": dict(shards=16, cases=640, deadline=70),
     "thorough": dict(shards=16, cases=16000, deadline=1200),
 }
-DECIDING = ["sm.read"]
+DECIDING = ["sm.read", "fileio.read_file"]
 RULE = ("Generated .sm texts: 12 chart types / key counts 3..18, 1..4 charts per file, 4..192 rows per measure, all "
         "symbols 1 2 3 4 M L F K, holds/rolls spanning measures, tempo changes on 1/16 beats, on measure lines and "
         "on 1/3 beats written with 3/6 decimals, comment lines, blank lines, optional #STOPS tag, hostile comments "
@@ -55,6 +55,9 @@ def run(ctx, case):
         SMMapSet.read(text)
     except Exception:
         pass
+    if case["cls"] != "corpus" and ctx.cur_k is not None and ctx.cur_k % 5 == 1:
+        from rv.monitors import fileio
+        fileio.check_read_file(ctx, "C02", SMMapSet, text)
     if case["cls"] != "corpus" and ctx.cur_k is not None and ctx.cur_k % 7 == 0:
         try:
             SMMapSet.read(text.split("\n"))  # list-of-lines form of the same API
